@@ -1565,6 +1565,10 @@ fn big_middle_text_cases(ctx: &mut Ctx) {
 /// expired from the first probe; a deadline / timeout far in the future like no deadline; a `timeout` counts from
 /// the moment the diff is made, not from the moment the builder was configured (the builder is kept for longer than
 /// its timeout before it is used).
+fn hour_ahead() -> Duration {
+    Duration::from_secs(3600)
+}
+
 fn wall_clock_cases(ctx: &mut Ctx) {
     use similar::verif_hooks;
     // every other line of the changed middle is common: the shortest script keeps those lines, the expired-deadline
@@ -1607,6 +1611,20 @@ fn wall_clock_cases(ctx: &mut Ctx) {
         }
         if real_future != none || real_timeout != none {
             ctx.violation("C07", &req, "a deadline / timeout one hour ahead (real clock) does not give the result of no deadline".to_string());
+        }
+        // state must not leak from one call into the next: a diff under a deadline an hour ahead (of several sizes, so that
+        // any per-call counter is left at different values), THEN a diff under a deadline in the past -- repeated
+        for k in 0..5usize {
+            let warm_old: String = (0..(7 + 13 * k)).map(|i| format!("w{}\n", i)).collect();
+            let warm_new: String = (0..(7 + 13 * k)).map(|i| if i % 3 == 0 { format!("v{}\n", i) } else { format!("w{}\n", i) }).collect();
+            let _ = catch_unwind(AssertUnwindSafe(|| TextDiff::configure().algorithm(alg).deadline(Instant::now() + hour_ahead()).diff_lines(&warm_old, &warm_new).ops().len()));
+            for rep in 0..2 {
+                let got = catch_unwind(AssertUnwindSafe(|| TextDiff::configure().algorithm(alg).deadline(past).diff_lines(&old, &new).ops().to_vec())).ok();
+                if got != virt0 {
+                    ctx.violation("C07", &req, format!("after a diff under a live deadline (warm-up {}), call {} under a deadline in the past does not give the expired result: state leaks between calls", k, rep + 1));
+                    ctx.violation("C20", &req, "the same inputs under the same (passed) deadline give different ops depending on what ran before".to_string());
+                }
+            }
         }
         // the setters OVERRIDE each other: whichever of `deadline` / `timeout` was called last on one builder decides
         let hour = Duration::from_secs(3600);
@@ -2833,14 +2851,23 @@ fn inline_pair<T: DiffableStr + ?Sized>(ctx: &mut Ctx, alg: Algorithm, mode: Mod
     // the builder's `newline_terminated` override must not change the inline expansion (it only tells renderers whether to
     // add a newline): a third of the pairs each with the flag left alone, forced off and forced on
     let nlt = [None, Some(false), Some(true)][(old.len() + 2 * new.len()) % 3];
-    let (diff, _, _, _) = obs::with_world(None, false, |_| {
+    // a quarter of the pairs: the LINE diff itself is made under a deadline that has expired (or expires at the second
+    // check), so its Replace ops may contain lines that are identical on both sides -- the inline expansion must cope
+    let line_dl = [None, None, None, Some(0u64), None, None, Some(1), None][(3 * old.len() + new.len()) % 8];
+    let (diff, _, _, _) = obs::with_world(line_dl, false, |inst| {
         let mut cfg = TextDiff::configure();
         cfg.algorithm(alg);
         if let Some(b) = nlt {
             cfg.newline_terminated(b);
         }
+        if let Some(i) = inst {
+            cfg.deadline(i);
+        }
         cfg.diff_lines(old, new)
     });
+    if line_dl.is_some() {
+        ctx.count("inline.line_diffs_made_under_an_expiring_deadline");
+    }
     ctx.count(&format!("inline.newline_terminated_override.{:?}", nlt));
     let diff = match diff {
         Some(d) => d,
@@ -3170,6 +3197,32 @@ pub fn suite_inline(ctx: &mut Ctx) {
         if rng.chance(1, 2) {
             old.push_str("shared last line\n");
             new.push_str("shared last line");
+        }
+        if i % 5 == 0 {
+            // two or three adjacent LONG lines (60 .. 140 words each) whose first and last word change: one run of hundreds of
+            // unchanged word tokens that crosses line breaks and ends in the middle of a line
+            old.clear();
+            new.clear();
+            let nl = rng.range(2, 3);
+            for l in 0..nl {
+                let words: Vec<String> = (0..rng.range(60, 140)).map(|w| format!("w{}", (w * 13 + l * 7) % 97)).collect();
+                let mut o = words.clone();
+                let mut n = words.clone();
+                if l == 0 {
+                    o[0] = "FIRST".to_string();
+                    n[0] = "first".to_string();
+                }
+                if l == nl - 1 {
+                    let k = o.len() - 1 - rng.below(3);
+                    o[k] = "LAST".to_string();
+                    n[k] = "last".to_string();
+                }
+                old.push_str(&o.join(" "));
+                old.push('\n');
+                new.push_str(&n.join(" "));
+                new.push('\n');
+            }
+            ctx.count("inline.long_word_run_cases");
         }
         ctx.count("inline.multi_line_block_cases");
         let mode = if i % 2 == 0 { Mode::Str } else { Mode::Bytes };
